@@ -23,6 +23,28 @@ fn run_history(ops: &str, out: &mut Out) -> Option<Object> {
     Some(o)
 }
 
+/// The same content built through other routes: every string, key and number buffer is given spare
+/// heap capacity (so short texts live on the heap instead of inline), objects are built entry by
+/// entry, arrays with spare capacity. Content-only equality/order/hash must not see the difference.
+pub fn rebuilt(v: &Value) -> Value {
+    fn heap(s: &str) -> String { let mut t = String::with_capacity(s.len() + 64); t.push_str(s); t }
+    match v {
+        Value::String(s) => Value::String(heap(s.as_str()).into()),
+        Value::Number(n) => {
+            let mut b: Vec<u8> = Vec::with_capacity(n.as_str().len() + 64);
+            b.extend_from_slice(n.as_str().as_bytes());
+            match json_syntax::NumberBuf::new(json_syntax::number::Buffer::from_vec(b)) { Ok(m) => Value::Number(m), Err(_) => v.clone() }
+        }
+        Value::Array(a) => { let mut w = Vec::with_capacity(a.len() + 17); for x in a.iter() { w.push(rebuilt(x)); } Value::Array(w) }
+        Value::Object(o) => {
+            let mut n = Object::new();
+            for e in o.entries() { n.push(heap(e.key.as_str()).into(), rebuilt(&e.value)); }
+            Value::Object(n)
+        }
+        other => other.clone(),
+    }
+}
+
 pub fn exec(rest: &str, out: &mut Out) -> (String, bool) {
     let a: Vec<&str> = rest.split(' ').collect();
     match (a[0], a.len()) {
@@ -34,6 +56,12 @@ pub fn exec(rest: &str, out: &mut Out) -> (String, bool) {
             out.oracle((x == y) == (c == Ordering::Equal), "Equal exactly when equal", || format!("eq={} cmp={:?}", x == y, c));
             out.oracle(x.cmp(&x) == Ordering::Equal && x == x.clone() && h(&x) == h(&x.clone()), "reflexive; clones equal their originals and hash alike", || String::new());
             if x == y { out.oracle(h(&x) == h(&y), "equal values hash identically", || String::new()); }
+            // the same content through another construction route (heap-backed buffers, entry-by-entry objects)
+            let xr = rebuilt(&x);
+            out.oracle(xr == x && x == xr && xr.cmp(&x) == Ordering::Equal && h(&xr) == h(&x) && xr.clone() == xr && xr.clone() == x,
+                "same content built another way (heap-backed string/key/number buffers): equal, Equal, same hash", || format!("{}", a[1]));
+            out.oracle((xr == y) == (x == y) && xr.cmp(&y) == c && y.cmp(&xr) == c.reverse(),
+                "comparison with a third value does not depend on the construction route", || format!("{} / {}", a[1], a[2]));
             // objects: the comparison goes through Object's own impls as well
             if let (Value::Object(p), Value::Object(q)) = (&x, &y) {
                 out.oracle(p.cmp(q) == c && (p == q) == (x == y) && p.partial_cmp(q) == Some(c), "Object impls agree with Value impls", || String::new());
